@@ -27,6 +27,7 @@ fn expr_cfg() -> ExprCfg {
         bad_random_bounds: false,
         lazy_hazards: true,
         odd_shifts: true,
+        full_parens: false,
     }
 }
 
